@@ -1,5 +1,6 @@
 import Dnp3.Driver.Link
 import Dnp3.Driver.Transport
+import Dnp3.Driver.Outstation
 open Dnp3 Dnp3.Driver
 
 partial def loop {σ : Type} (h : IO.FS.Stream) (out : IO.FS.Stream) (step : σ → String → σ × List String) (s : σ) : IO Unit := do
@@ -20,4 +21,5 @@ def main (args : List String) : IO UInt32 := do
   match args with
   | ["link"] => loop stdin stdout linkStep (Reader.new .close .stream 2048); return 0
   | ["transport"] => loop stdin stdout transportStep TState.init; return 0
+  | ["outstation"] => loop stdin stdout outstationStep {}; return 0
   | _ => IO.eprintln "usage: dnp3model <engine>"; return 2
